@@ -295,6 +295,10 @@ class QGen:
             inner = self.logical(samples, depth, ldepth + 1)
             neg = self.rng.choice(["!", "not "])
             return f"{neg}({inner})" if (" " in inner or self.rng.random() < 0.3) else f"{neg}{inner}"
+        if self.opts.get("p_str_lit") and self.rng.random() < self.opts["p_str_lit"]:
+            # a comparison with a string literal that needs escapes
+            lit = self.rng.choice(["q'uote", 'dq"uote', "é", "ctl\n", "back\\slash", "\U0001f600", "\u00e9\u0301"])
+            return f"{self.singular(samples)} {self.rng.choice(['==', '!='])} {self.quote(lit)}"
         if self.opts.get("p_regex_fn") and self.rng.random() < self.opts["p_regex_fn"]:
             # regex-heavy profile: many match()/search() calls with different patterns on one environment
             fn = self.rng.choice(["match", "search"])
